@@ -1,4 +1,4 @@
-#!/bin/sh
+#!/bin/bash
 # tools/ingest_seed.sh <nn> <round> [check ...]   e.g. tools/ingest_seed.sh 07 4
 # Takes a sub-agent's result from /tmp/wt_c<nn> (SEED_patch.diff, SEED_demo.py, SEED_meta.json):
 # confirms the suite passes with the change, the demo passes without / fails with it (scratch copy of
@@ -18,7 +18,7 @@ rsync -a --exclude .git --exclude '__pycache__' /repo/ "$w/"
 ( cd $w && PYTHONPATH=$w timeout 600 /venv/bin/python $d/demo.py >/dev/null 2>&1; echo "demo on unchanged tree: exit $?" )
 if ( cd $w && git apply $d/patch.diff ); then
   ( cd $w && PYTHONPATH=$w timeout 600 /venv/bin/python $d/demo.py >/dev/null 2>&1; echo "demo on changed tree: exit $?" )
-  for c in ${@:-$pid}; do
+  checks="$*"; [ -z "$checks" ] && checks=$pid; for c in $checks; do
     ( cd /verif && PINT_REPO="$w" VERIF_NO_EVIDENCE=1 ./check $c 2>&1 | grep "^VIOLATION\|^  fields\|^$c\|^INCONC" | cut -c1-230 | head -7 )
   done
 else
